@@ -318,7 +318,7 @@ def _operands_unchanged(alias, av0, b, bform, bv0, site):
 
 def body_unary(case):
     x = case["a"]
-    a = Angle(x)
+    a = S.angle_with_tolerance(x)
     v0 = a()
     u = case["u"]
     fv = F(v0)
@@ -362,6 +362,9 @@ def body_view(case):
     if abs(h - v / 15.0) > 2 * S.ULP * abs(v / 15.0):
         raise Violation("Angle(%r).get_ra() = %r, value/15 = %r" % (v, h, v / 15.0), site="Angle.get_ra", kind="view")
     b = Angle(a)
+    tol = S.ANGLE_TOLS[(int(abs(v) * 7919.0) + len(str(case))) % len(S.ANGLE_TOLS)]
+    if tol is not None:
+        b.set_tolerance(tol)    # the comparison tolerance is no part of the value
     b.rad(), b.get_ra()         # views taken before the in-place change must not stick to it
     ret = b.to_positive()
     if ret is not b:
